@@ -108,7 +108,7 @@ func runC07(w *core.World, r *core.Report) {
 	r.Floor("R1", "State+Cache fields", nf, 15)
 
 	// ---- R2 -----------------------------------------------------------------------------------
-	checkResumeReset(w, r)
+	checkResumeReset(w, r, "R2")
 
 	// ---- R5 -----------------------------------------------------------------------------------
 	if nv := anchor(w, r, "vm", "NewVm"); nv != nil {
@@ -732,7 +732,7 @@ func (a *mwAnalysis) summary(fn *ssa.Function, depth int) mwSet {
 	return res
 }
 
-func checkResumeReset(w *core.World, r *core.Report) {
+func checkResumeReset(w *core.World, r *core.Report, rule string) {
 	run := anchor(w, r, "vm", "(*Vm).Run")
 	render := anchor(w, r, "vm", "(*Vm).Render")
 	if run == nil || render == nil {
@@ -774,7 +774,7 @@ func checkResumeReset(w *core.World, r *core.Report) {
 	}
 	sort.Strings(allFields)
 	if len(allFields) < 20 {
-		r.Undecided("R2", "renderer types", token.NoPos, fmt.Sprintf("only %d fields found in Vm/Page/Menu/Sizer", len(allFields)))
+		r.Undecided(rule, "renderer types", token.NoPos, fmt.Sprintf("only %d fields found in Vm/Page/Menu/Sizer", len(allFields)))
 		return
 	}
 	// refute 'carried' candidates until stable
@@ -862,7 +862,7 @@ func checkResumeReset(w *core.World, r *core.Report) {
 		}
 	}
 	if len(resumeEdges) != 1 {
-		r.Undecided("R2", "vm.(*Vm).Run: resume block", run.Pos(), fmt.Sprintf("expected one 'WAIT was set' edge in Run, found %d", len(resumeEdges)))
+		r.Undecided(rule, "vm.(*Vm).Run: resume block", run.Pos(), fmt.Sprintf("expected one 'WAIT was set' edge in Run, found %d", len(resumeEdges)))
 		return
 	}
 	head := resumeEdges[0].To()
@@ -871,7 +871,7 @@ func checkResumeReset(w *core.World, r *core.Report) {
 		region[b] = true
 	}
 	if len(head.Preds) != 1 {
-		r.Undecided("R2", "vm.(*Vm).Run: resume block", run.Pos(), "the resume edge does not lead to a block of its own")
+		r.Undecided(rule, "vm.(*Vm).Run: resume block", run.Pos(), "the resume edge does not lead to a block of its own")
 		return
 	}
 	out := a.flow(run, head, region, 0)
@@ -910,23 +910,23 @@ func checkResumeReset(w *core.World, r *core.Report) {
 		}
 		switch cls {
 		case "config":
-			r.OK("R2", key, token.NoPos, "configuration: no writer reachable from Run/Render")
+			r.OK(rule, key, token.NoPos, "configuration: no writer reachable from Run/Render")
 		case "carried":
-			r.OK("R2", key, token.NoPos, "configuration-carried: every stored value derives from configuration")
+			r.OK(rule, key, token.NoPos, "configuration-carried: every stored value derives from configuration")
 		case "link":
-			r.OK("R2", key, token.NoPos, "link to another renderer object")
+			r.OK(rule, key, token.NoPos, "link to another renderer object")
 		default:
 			nstate++
 			if len(rd) == 0 {
-				r.OK("R2", key, token.NoPos, "request state, never read on the run/render path")
+				r.OK(rule, key, token.NoPos, "request state, never read on the run/render path")
 				continue
 			}
 			_, reset := exit[k]
-			r.Check(reset, "R2", key, rd[0].pos, "request state, re-initialised on every path through the resume block",
+			r.Check(reset, rule, key, rd[0].pos, "request state, re-initialised on every path through the resume block",
 				fmt.Sprintf("request state that survives a HALT on a long-lived engine: it is read on the run/render path (e.g. by %s at %s) but not re-initialised with a constant/fresh/configuration value on every path through the resume block of Vm.Run, whereas a per-request engine starts with it fresh", core.QName(rd[0].fn), w.Pos(rd[0].pos)))
 		}
 	}
-	r.Floor("R2", "request-state fields", nstate, 10)
+	r.Floor(rule, "request-state fields", nstate, 10)
 }
 
 // checkDirtySetters: the output-pending mark FLAG_DIRTY is raised (with a constant index) only by
